@@ -17,7 +17,7 @@ Here is a semantic property of the project that is supposed to hold:
   Must hold for: {p['quantifier']['text']}
   Code it is anchored in: {', '.join(p['anchors']['files'])}
 
-Your task: write TWO independent, realistic source changes (call them A and B, touching different mechanisms) to the project's non-test Go code, each of which BREAKS this property, while the project still compiles and its existing test suite still passes. Think of the kind of subtle regression a developer could introduce in a refactor or an optimisation: an off-by-one, a dropped check, a lock released too early, a missing clone, a reordered pair of statements, a swapped condition, a stale variable. Prefer changes that need something specific to manifest - a particular interleaving, a fault or crash at a particular point, a multi-step sequence of operations, an unusual input, or two cooperating edits that each look fine alone - NOT ones that ordinary use or the existing tests would expose at once. Do not edit or delete existing tests; do not add build tags; do not touch files ending in _verif.go / _noverif.go or the calls to yield(...) / verifInterpose(...) (those are inert instrumentation hooks).
+Your task: write TWO independent, realistic source changes (call them A and B, touching different mechanisms) to the project's non-test Go code, each of which BREAKS this property, while the project still compiles and its existing test suite still passes. Think of the kind of subtle regression a developer could introduce in a refactor or an optimisation: an off-by-one, a dropped check, a lock released too early, a missing clone, a reordered pair of statements, a swapped condition, a stale variable. Prefer changes that need something specific to manifest - a particular interleaving, a fault or crash at a particular point, a multi-step sequence of operations, an unusual input, or two cooperating edits that each look fine alone - NOT ones that ordinary use or the existing tests would expose at once. Never use `git stash` (the stash is shared between worktrees of other people working in parallel; use `git diff > file`, `git checkout -- .`, `git apply file` instead). Do not edit or delete existing tests; do not add build tags; do not touch files ending in _verif.go / _noverif.go or the calls to yield(...) / verifInterpose(...) (those are inert instrumentation hooks).
 
 For each change X in {{A, B}}:
  1. Start from a clean tree (git -C {wt} checkout -- . && git -C {wt} clean -fdq, but keep your OUT directory outside the tree: use {wt}.out/).
